@@ -25,15 +25,21 @@ META = dict(
 
 # ---------------------------------------------------------------- helpers
 
-def _plain(items, ops):
+def _plain(items, ops, retry=False):
     out = []
-    D.src(items).pipe(*ops).subscribe(on_next=out.append, on_error=lambda e: out.append(('ERR', repr(e))))
+    obs = (D.flaky_src(items, 1) if retry else D.src(items)).pipe(*ops)
+    if retry:
+        obs.subscribe(on_next=lambda i: None, on_error=lambda e: None)      # first subscription of the same observable fails after one item
+    obs.subscribe(on_next=out.append, on_error=lambda e: out.append(('ERR', repr(e))))
     return out
 
 
-def _mux(items, ops):
+def _mux(items, ops, retry=False):
     out = []
-    D.src(items).pipe(rs.state.with_memory_store(list(ops))).subscribe(on_next=out.append, on_error=lambda e: out.append(('ERR', repr(e))))
+    obs = (D.flaky_src(items, 1) if retry else D.src(items)).pipe(rs.state.with_memory_store(list(ops)))
+    if retry:
+        obs.subscribe(on_next=lambda i: None, on_error=lambda e: None)
+    obs.subscribe(on_next=out.append, on_error=lambda e: out.append(('ERR', repr(e))))
     return out
 
 
@@ -152,12 +158,8 @@ class WholeRun(Result):
         run = _plain if mode == 'plain' else _mux
 
         def both():
-            ops_s, ops_r = [fac(False)], [fac(True)]
-            if n >= 1:
-                # the same operator objects first serve a subscription that fails at the rx level after one item (retry history)
-                for o in (ops_s, ops_r):
-                    D.abort_first(rx.pipe(*o) if mode == 'plain' else rs.state.with_memory_store(list(o)), xs[:1])
-            return run(xs, ops_s), run(xs, ops_r)
+            # retry history: the same observable first serves a subscription that fails at the rx level after one item
+            return run(xs, [fac(False)], retry=n >= 1), run(xs, [fac(True)], retry=n >= 1)
         with z3x.float_slots(), z3x.sqrt_uf():
             paths, complete = z3x.explore(both, q)
         self.npaths = len(paths)
